@@ -265,7 +265,7 @@ func init() {
 					t.Sample(map[string]any{"stratum": "soup", "input": fmt.Sprintf("%q", src)})
 				}
 			}},
-			{Name: "mutants", Quick: 120000, Thorough: 1000000, Run: func(t *fw.T) {
+			{Name: "mutants", Quick: 200000, Thorough: 1000000, Run: func(t *fw.T) {
 				r := t.Rand()
 				_, rd := randProgram(r)
 				src := mutate(r, rd)
@@ -275,7 +275,7 @@ func init() {
 					t.Sample(map[string]any{"stratum": "mutants", "input": src})
 				}
 			}},
-			{Name: "valid-programs", Quick: 6000, Thorough: 50000, Run: func(t *fw.T) {
+			{Name: "valid-programs", Quick: 12000, Thorough: 50000, Run: func(t *fw.T) {
 				r := t.Rand()
 				_, rd := randProgram(r)
 				checkParseContract(t, rd.Src, "valid")
